@@ -31,7 +31,18 @@ class NullCtx:
 
 
 def jnorm(x):
-    return json.loads(json.dumps(x))
+    """what the value is in JSON terms - with the booleans marked, so that True and 1 (equal in Python, different in JSON and to
+    every reader of the file) do not compare equal"""
+    def mark(v):
+        if isinstance(v, bool):
+            return {"__bool__": str(v)}
+        if isinstance(v, dict):
+            return {k: mark(w) for k, w in v.items()}
+        if isinstance(v, list):
+            return [mark(w) for w in v]
+        return v
+
+    return mark(json.loads(json.dumps(x)))
 
 
 def strip_reserved(md):
@@ -78,6 +89,27 @@ def build_object(rng, kind, big=False, ctx=None):
             k = key_from_lib(kind, e)
             if KEYS[kind].size(k) > 0 and rng.random() < 0.5:
                 h.set_attr_to_edge_metadata(*lib_args(kind, k), rng.choice(RESERVED), rng.choice([99, "zz", 7, 0]))
+    if rng.random() < 0.35:
+        # metadata values of every JSON kind next to each other - booleans (not the integers 1 / 0), strings that carry JSON
+        # punctuation (a reader that "repairs" the text must leave string contents alone), empty containers
+        rich = {"ok": True, "off": False, "one": 1, "zero": 0, "pattern": "\\d{2,}", "list-as-text": "[1, 2, ]", "obj-as-text": '{"a": 1, }',
+                "quote": 'say "hi", ] then }', "empty": [], "none": None, "nested": {"flags": [True, 1, False, 0], "t": "x,\n]"}}
+        try:
+            ns_ = list(h.get_nodes())
+            if ns_:
+                n_ = rng.choice(ns_)
+                for f_, v_ in rich.items():
+                    h.set_attr_to_node_metadata(n_, f_, copy.deepcopy(v_))
+            es_ = [e for e in h.get_edges() if len(e) > 0]
+            if es_:
+                from ..observe import lib_args as _la, key_from_lib as _kf
+                k_ = _kf(kind, rng.choice(es_))
+                if KEYS[kind].size(k_) > 0:
+                    for f_, v_ in rich.items():
+                        h.set_attr_to_edge_metadata(*_la(kind, k_), f_, copy.deepcopy(v_))
+            h.set_attr_to_hypergraph_metadata("rich", copy.deepcopy(rich))
+        except Exception:
+            pass
     if rng.random() < 0.5:  # isolated node with metadata
         free = [n for n in cfg.labels if n not in h.get_nodes()]
         if free:
